@@ -157,6 +157,14 @@ func lateDeliveries(r *rec.Rec, srcs []*src.Source, tu int64, flags catalog.Flag
 			begun[em.Tag] = em.Begin
 		}
 	}
+	inFlight := false
+	for _, s := range srcs {
+		for _, em := range s.Emissions() {
+			if em.Begin < tu && (em.End == 0 || em.End > tu) {
+				inFlight = true
+			}
+		}
+	}
 	var out []string
 	for _, ev := range r.Events() {
 		if ev.Seq <= tu {
@@ -168,7 +176,7 @@ func lateDeliveries(r *rec.Rec, srcs []*src.Source, tu int64, flags catalog.Flag
 			}
 			continue
 		}
-		if !asyncish(flags) {
+		if !asyncish(flags) && !inFlight {
 			out = append(out, fmt.Sprintf("%s delivered at clock %d after Unsubscribe returned at %d (no pending emission)", ev.String(), ev.Seq, tu))
 		}
 	}
@@ -449,7 +457,7 @@ func runWaitOrder(c driver.Case) driver.Result {
 	// the stream ended by itself: Wait (old and new) must return, and not before the terminal callback returned
 	st, dump, _ := quiesce.Call(func() { <-waitDone; sub.Wait() }, 10*time.Second)
 	if st == quiesce.Hung {
-		res.Verdict, res.Key, res.Dirty = driver.Violated, "C06/"+bb.fam+"/wait-hangs-after-stream-terminated", true
+		res.Verdict, res.Key, res.Dirty = driver.Violated, "C06/hang/"+quiesce.BlockedSite(dump), true
 		res.Msg = what + ": the observer received its terminal notification but Wait never returns; all goroutines blocked"
 		res.Witness = dump
 		return res
